@@ -317,6 +317,7 @@ def _main_with_tmp():
     when the run ends, whatever happens"""
     import shutil
     import tempfile
+    _bootstrap()        # (re-executes the interpreter first, so no directory is left behind by the old one)
     root = tempfile.mkdtemp(prefix="vf-run-")
     tempfile.tempdir = root
     os.environ["TMPDIR"] = root
